@@ -327,6 +327,7 @@ def pipeline(ctx, quick):
 def run(ctx):
     quick = ctx.tier == "quick"
     ctx.prepare("C18.v")
+    ctx.rule("regenerated from the source on every run (tools/translate_extra.py -> coq/gen/Extra.v; bridged to the model by C18_site_sets_are_the_sources): CANONICAL_FWD_SITES / CANONICAL_REV_SITES of src/common.py as lists of pairs of byte lists, in the order of the set literals")
     corr_sites(ctx)
     corr_histories(ctx, quick)
     corr_flags(ctx, quick)
